@@ -8,6 +8,7 @@ import (
 	"flag"
 	"fmt"
 	"os"
+	"path/filepath"
 	"sort"
 	"time"
 
@@ -16,6 +17,7 @@ import (
 	"github.com/elastic/go-libaudit/v2/vshim/vtime"
 
 	"verif/engine/ev"
+	"verif/engine/harvest"
 	"verif/engine/par"
 )
 
@@ -28,6 +30,7 @@ type Job struct {
 	First     int
 	Types     []uint16
 	Mons      map[string]bool
+	Lits      []string
 	N         int    // scale: history size
 	Scenario  string // scale: which family
 }
@@ -72,6 +75,10 @@ func runJob(j Job) *Stats {
 		return dfsAll(j.Cfg, j.Depth, j.First, j.Mons)
 	case "types":
 		return typesPass(j.Cfg, j.Types, j.Mons)
+	case "pileup":
+		return pilePass(j.Mons)
+	case "lits":
+		return litsPass(j.Cfg, j.Types, j.Lits, j.Mons)
 	case "scale":
 		return scalePass(j.Cfg, j.Mons, j.N, j.Scenario)
 	}
@@ -179,6 +186,19 @@ func scalePass(cfg Config, mons map[string]bool, n int, scenario string) *Stats 
 			h = append(h, Op{Code: opMaintain}, push(0, "eoe"), Op{Code: opClose})
 			return h
 		})
+	case "middle-insert":
+		// (h) n incomplete events with ONE number near the head missing, which arrives last: it belongs far
+		// from the tail of the sorted list (and not at its head); everything leaves in ascending order
+		mk("n incomplete events, number 5 arrives last; Close", func() []Op {
+			var h []Op
+			for i := 0; i < n; i++ {
+				if i != 5 {
+					h = append(h, push(i, "mid"))
+				}
+			}
+			h = append(h, push(5, "mid"), Op{Code: opMaintain}, Op{Code: opClose})
+			return h
+		})
 	case "fill":
 		// (f) exactly maxInFlight incomplete events may sit in the buffer: none is delivered before Close
 		mk("maxInFlight incomplete events; Maintain; Close", func() []Op {
@@ -190,6 +210,45 @@ func scalePass(cfg Config, mons map[string]bool, n int, scenario string) *Stats 
 			return h
 		})
 	}
+	return st
+}
+
+// litsPass: records of the harvested types whose text is a harvested string literal (code that
+// special-cases a record looks at its type and at literal text in it), in histories where such a
+// record arrives below, between and above buffered events and next to gaps.
+func litsPass(cfg Config, types []uint16, lits []string, mons map[string]bool) *Stats {
+	st := &Stats{Config: cfg.String(), Mode: "harvested-literals", Exhaustive: true}
+	sigSeen := map[string]bool{}
+	outcomes := map[string]struct{}{}
+	b := cfg.Base
+	mid := func(s uint32) Op { return Op{Code: opPush, Seq: s, Kind: "mid"} }
+	for _, t := range types {
+		for _, l := range append([]string{""}, lits...) {
+			x := func(s uint32) Op { return Op{Code: opPush, Seq: s, Kind: "type", Type: t, Raw: l} }
+			hists := [][]Op{
+				{mid(b + 7), mid(b + 8), x(b + 5), {Code: opMaintain}, {Code: opClose}},
+				{mid(b + 5), x(b + 7), mid(b + 9), {Code: opPush, Seq: b + 5, Kind: "eoe"}, {Code: opMaintain}, {Code: opClose}},
+				{x(b), {Code: opPush, Seq: b, Kind: "eoe"}, x(b + 1), {Code: opPush, Seq: b + 1, Kind: "eoe"}, x(b + 2), {Code: opPush, Seq: b + 2, Kind: "eoe"}, {Code: opClose}},
+				{{Code: opPush, Seq: b, Kind: "fin"}, x(b + 4), {Code: opPush, Seq: b + 4, Kind: "eoe"}, {Code: opPush, Seq: b + 5, Kind: "fin"}, {Code: opClose}},
+			}
+			for _, hist := range hists {
+				in := replay(cfg, hist)
+				st.Executions++
+				st.States++
+				st.Transitions += int64(len(hist))
+				outcomes[fmt.Sprint(in.delivLog)] = struct{}{}
+				for _, v := range selected(in.viol, mons) {
+					sig := v.Mon + "/" + v.Sub
+					if !sigSeen[sig] {
+						sigSeen[sig] = true
+						st.Viol = append(st.Viol, FoundViolation{Mon: v.Mon, Sub: v.Sub, What: v.What, Config: cfg, History: hist})
+					}
+				}
+			}
+		}
+	}
+	st.Outcomes = int64(len(outcomes))
+	st.Samples = append(st.Samples, fmt.Sprintf("%d harvested record types x %d harvested literals x 4 histories", len(types), len(lits)+1))
 	return st
 }
 
@@ -329,6 +388,40 @@ func buildJobs(prop, tier string) []interface{} {
 	jobs = append(jobs, Job{Mode: "scale", Scenario: "gaps-one-push", N: 3000, Cfg: Config{MaxInFlight: 5000, TimeoutTicks: farTimeout, Base: 1<<32 - 1000, Offsets: []uint32{0}, Kinds: []string{"mid"}, MaxRecs: 3, PostClose: 1}})
 	jobs = append(jobs, Job{Mode: "scale", Scenario: "huge-event", N: big, Cfg: Config{MaxInFlight: 5, TimeoutTicks: farTimeout, Base: 5, Offsets: []uint32{0}, Kinds: []string{"mid"}, MaxRecs: 3, PostClose: 1}})
 	jobs = append(jobs, Job{Mode: "scale", Scenario: "fill", N: big, Cfg: Config{MaxInFlight: big, TimeoutTicks: farTimeout, Base: 5, Offsets: []uint32{0}, Kinds: []string{"mid"}, MaxRecs: 3, PostClose: 1}})
+	jobs = append(jobs, Job{Mode: "scale", Scenario: "middle-insert", N: 3000, Cfg: Config{MaxInFlight: 5000, TimeoutTicks: farTimeout, Base: 5, Offsets: []uint32{0}, Kinds: []string{"mid"}, MaxRecs: 3, PostClose: 1}})
+	// thresholds written into the tree under test (batch limits, per-event record limits, look-back
+	// windows ...): every integer constant 64..100000 found in reassembler.go gets its own scale scenarios
+	// just above it
+	hv := harvest.Files([]string{filepath.Join(ev.Repo(), "reassembler.go")}, harvest.Options{})
+	for _, N := range hv.Thresholds(64, 100000) {
+		n := int(N) + 5
+		far := Config{MaxInFlight: 5, TimeoutTicks: farTimeout, Base: 5, Offsets: []uint32{0}, Kinds: []string{"mid"}, MaxRecs: 3, PostClose: 1}
+		jobs = append(jobs, Job{Mode: "scale", Scenario: "huge-event", N: n, Cfg: far})
+		if n <= 25000 {
+			wide := far
+			wide.MaxInFlight = 2*n + 100
+			jobs = append(jobs, Job{Mode: "scale", Scenario: "fill", N: n, Cfg: Config{MaxInFlight: n, TimeoutTicks: farTimeout, Base: 5, Offsets: []uint32{0}, Kinds: []string{"mid"}, MaxRecs: 3, PostClose: 1}})
+			jobs = append(jobs, Job{Mode: "scale", Scenario: "gaps-one-push", N: n, Cfg: wide})
+			timed := wide
+			timed.TimeoutTicks = 2
+			jobs = append(jobs, Job{Mode: "scale", Scenario: "gaps-one-maintain", N: n, Cfg: timed})
+		}
+		if 2*n+10 <= 25000 {
+			wide := far
+			wide.MaxInFlight = 2*n + 100
+			jobs = append(jobs, Job{Mode: "scale", Scenario: "middle-insert", N: 2*n + 10, Cfg: wide})
+		}
+	}
+	// a timeout of 4 ticks (an event created 1 or 3 ticks after another one has a deadline that differs
+	// from the other's at reachable instants) and one that is NOT on the grid of reachable instants (2.5)
+	for _, c := range []Config{
+		{MaxInFlight: 2, TimeoutTicks: 4, Base: 5, Offsets: []uint32{0, 1}, Kinds: []string{"mid", "fin", "eoe"}, Ticks: []int{1, 3}, MaxRecs: 2, PostClose: 1},
+		{MaxInFlight: 2, TimeoutTicks: 2, TimeoutHalf: true, Base: 5, Offsets: []uint32{0, 1}, Kinds: []string{"mid", "fin"}, Ticks: []int{1, 3}, MaxRecs: 2, PostClose: 1},
+	} {
+		jobs = append(jobs, Job{Mode: "bfs", Cfg: c, MaxStates: maxStates})
+	}
+	// the byte-level entry point for EOE records and headers whose sequence field does not fit 32 bits
+	jobs = append(jobs, Job{Mode: "bfs", Cfg: Config{MaxInFlight: 2, TimeoutTicks: farTimeout, Base: 58, Offsets: []uint32{0, 1}, Kinds: []string{"mid", "midRaw", "eoeRaw", "eoeRawWrap", "midRawWrap", "fin"}, MaxRecs: 2, PostClose: 1}, MaxStates: maxStates})
 	// sequence numbers about 2^31 away from the delivery position (the stated order treats numbers more
 	// than 2^24-1 apart as rolled over); loss counting is only defined inside one window, so not for C03
 	if prop != "C03" {
@@ -350,6 +443,7 @@ func buildJobs(prop, tier string) []interface{} {
 	}
 	// a Stream that re-enters the Reassembler from its callback (C01 only: grouping / exactly once)
 	if prop == "C01" {
+		jobs = append(jobs, Job{Mode: "pileup"})
 		for _, m := range []int{1, 2, 3} {
 			cfg := Config{MaxInFlight: m, TimeoutTicks: farTimeout, Base: 5, Offsets: []uint32{0, 1, 2, 4}, Kinds: []string{"mid", "fin", "eoe"}, MaxRecs: 2, PostClose: 1, Reenter: true}
 			jobs = append(jobs, Job{Mode: "bfs", Cfg: cfg, MaxStates: maxStates})
@@ -381,7 +475,41 @@ func buildJobs(prop, tier string) []interface{} {
 		}
 	} else {
 		types = []uint16{0, 1, 1000, 1100, 1199, 1298, 1299, 1300, 1301, 1302, 1319, 1320, 1321, 1326, 1327, 1328, 1400, 1799, 2000, 2098, 2099, 2100, 2101, 2999, 65535}
+		// record types the tree under test names (AUDIT_xxx identifiers, integer constants that look like
+		// record types) and their neighbours
+		seen := map[uint16]bool{}
+		for _, t := range types {
+			seen[t] = true
+		}
+		add := func(v int64) {
+			for d := int64(-1); d <= 1; d++ {
+				if x := v + d; x >= 0 && x < 65536 && !seen[uint16(x)] {
+					seen[uint16(x)] = true
+					types = append(types, uint16(x))
+				}
+			}
+		}
+		for _, a := range hv.Audit {
+			if t, err := auparse.GetAuditMessageType(a); err == nil {
+				add(int64(t))
+			}
+		}
+		for _, v := range hv.Thresholds(1000, 2999) {
+			add(v)
+		}
 	}
+	// harvested string literals as the text of records of the harvested types
+	var litTypes []uint16
+	for _, a := range hv.Audit {
+		if t, err := auparse.GetAuditMessageType(a); err == nil {
+			litTypes = append(litTypes, uint16(t))
+		}
+	}
+	for _, v := range hv.Thresholds(1000, 2999) {
+		litTypes = append(litTypes, uint16(v))
+	}
+	litTypes = append(litTypes, 1300)
+	jobs = append(jobs, Job{Mode: "lits", Cfg: Config{MaxInFlight: 3, TimeoutTicks: farTimeout, Base: 5, Offsets: []uint32{0, 1}, Kinds: []string{"mid"}, MaxRecs: 3, PostClose: 1}, Types: litTypes, Lits: hv.Strings})
 	for i := 0; i < len(types); i += 8192 {
 		j := i + 8192
 		if j > len(types) {
